@@ -101,7 +101,7 @@ def decl1(ctx: Ctx, chk) -> None:
         check(f"MessageSchema.{fname}", rec is not None and rec["required"] and rec["kind"].startswith("aiomysensors."),
               f"{rec and rec['kind'].rsplit('.', 1)[-1]}(required)", f"{fname} must be a required repository field (declared {rec and rec['kind']}, required={rec and rec['required']})")
     # child range validator inside validate_child_id
-    f = ctx.func(f"{codec.MESSAGE_MOD}.validate_child_id")
+    f = ctx.inl(ctx.func(f"{codec.MESSAGE_MOD}.validate_child_id"))  # parsing may be split off into a private helper
     ranges = [n for n in ctx.own_nodes(f) if isinstance(n, ast.Call) and norm(n.func).endswith("validate.Range")]
     if not ranges:
         # the validator instance may be a module-level constant that validate_child_id calls
